@@ -28,7 +28,7 @@ import (
 func init() {
 	register("bdhke", []string{"C10", "C04"},
 		"tuple = (secret class: empty/1 byte/512 bytes/513+/non-UTF-8 bytes/hex64/NUT-10 JSON/UTF-8) x (blinding scalar class: 1, 2, n-1, n-2, small, >=n-reduced, random) x "+
-			"(key: all 60 amounts of 3 keysets from crypto.GenerateKeyset(hdkeychain.NewMaster(seed)), walked in order) x (DLEQ nonces: repeated GenerateDLEQ); "+
+			"(key: all 60 amounts of 3 keysets from crypto.GenerateKeyset(hdkeychain.NewMaster(seed)), walked in order) x (DLEQ nonces: repeated GenerateDLEQ, plus chosen edge nonces through a NUT-12 prover re-implementation); "+
 			"per tuple: every positive identity (round trip, independence of r, DLEQ of the blind signature, DLEQ of the proof with r) on the real functions and on an independent "+
 			"recomputation from library primitives, and every single-field tampering (e, s, r, A, B_, C_/C, secret, amount; several variants each) which must be REJECTED; "+
 			"a case is distinct by (check kind, field, variant, secret class, scalar class)",
@@ -123,6 +123,23 @@ func bdSpecVerifyDLEQ(e, s *secp256k1.PrivateKey, A, B_, C_ *secp256k1.PublicKey
 	var hs secp256k1.ModNScalar
 	over := hs.SetByteSlice(h[:])
 	return hs.Equals(&e.Key), over
+}
+
+// DLEQ prover written from NUT-12 with an EXPLICIT nonce (crypto.GenerateDLEQ draws its nonce from crypto/rand, so edge
+// nonces can only be reached this way). Returns (e, s, hash>=n).
+func bdSpecGenerateDLEQ(nonce, a *secp256k1.PrivateKey, B_, C_ *secp256k1.PublicKey) (*secp256k1.PrivateKey, *secp256k1.PrivateKey, bool) {
+	R1 := bdBase(&nonce.Key)
+	R2 := bdMul(&nonce.Key, B_)
+	var sb bytes.Buffer
+	for _, p := range []*secp256k1.PublicKey{R1, R2, bdBase(&a.Key), C_} {
+		sb.WriteString(hex.EncodeToString(p.SerializeUncompressed()))
+	}
+	h := sha256.Sum256(sb.Bytes())
+	var e, ea, sc secp256k1.ModNScalar
+	over := e.SetByteSlice(h[:])
+	ea.Mul2(&e, &a.Key)
+	sc.Add2(&nonce.Key, &ea)
+	return secp256k1.NewPrivateKey(&e), secp256k1.NewPrivateKey(&sc), over
 }
 
 // ---------- per-tuple record (tuples run in parallel; records are merged in tuple order) ----------
@@ -534,6 +551,23 @@ func bdTuple(i int, rng *Rng, keys *bdKeys, nonces int, seed uint64, t *bdRec) {
 	ksPub := crypto.WalletKeyset{Id: ks.Id, PublicKeys: map[uint64]*secp256k1.PublicKey{}}
 	for a, kp := range ks.Keys {
 		ksPub.PublicKeys[a] = kp.PublicKey
+	}
+	// --- dleq_complete is "for EVERY nonce": proofs made by the NUT-12 re-implementation with chosen nonces (edge classes
+	//     of bdBlindScalar: 1, 2, n-1, n-2, small, >=n reduced, random) must be accepted by the REAL verifiers
+	for j := 0; j < nonces; j++ {
+		nc, ncl := bdBlindScalar(rng)
+		if nc.Key.IsZero() {
+			continue
+		}
+		e, s, over := bdSpecGenerateDLEQ(nc, k, B_, C_)
+		if over {
+			t.h("corner", "hash>=n")
+			continue
+		}
+		m := map[string]any{"nonce": bdHexSc(nc), "e": bdHexSc(e), "s": bdHexSc(s), "B_": bdHexPt(B_), "C_": bdHexPt(C_)}
+		t.check("C10", "dleq-accept", "spec-prover/VerifyDLEQ", "nonce="+ncl, crypto.VerifyDLEQ(e, s, K, B_, C_), "VerifyDLEQ rejects a NUT-12 proof made with a chosen nonce", m)
+		pr := cashu.Proof{Amount: amount, Id: ks.Id, Secret: secret, C: bdHexPt(C), DLEQ: &cashu.DLEQProof{E: bdHexSc(e), S: bdHexSc(s), R: bdHexSc(r)}}
+		t.check("C10", "dleq-accept", "spec-prover/VerifyProofDLEQ", "nonce="+ncl, nut12.VerifyProofDLEQ(pr, K), "VerifyProofDLEQ rejects a NUT-12 proof made with a chosen nonce", m)
 	}
 	for nonce := 0; nonce < nonces; nonce++ {
 		full := nonce == 0
